@@ -527,6 +527,7 @@ fn host_string(env: &Env, inp: &Value) -> String {
         "name" => NAME_HOST.to_string(),
         "ip" => "127.0.0.1".to_string(),
         "localhost" => "localhost".to_string(),
+        "nxdomain" => "no-such-host.invalid".to_string(),
         "tlsname" if inp["name"]["id"] == "toolong" => "a.".repeat(148) + "test", // 300 characters
         "tlsname" => inp["name"]["text"].as_str().unwrap().to_string(),
         other => panic!("driver: hostKind {other}"),
@@ -542,6 +543,7 @@ fn host_kind(h: &str) -> String {
         NAME_HOST => "name".into(),
         "127.0.0.1" => "ip".into(),
         "localhost" => "localhost".into(),
+        "no-such-host.invalid" => "nxdomain".into(),
         other => format!("raw:{other}"),
     }
 }
